@@ -23,7 +23,7 @@ CLAIM = dict(
          'Three genuine defect classes are listed in '
          'known_findings.json and reported as KNOWN-FINDING (Laguerre cycling on (near-)symmetric root configurations, degree >= 4: accuracy clauses of the classes '
          'binomial/ring/sparse/coeffs; loss of a zero root when a cubic is polished: matching clause; unrefined Complex cubic with d1 on the imaginary axis: accuracy clauses); count, finiteness and rejection stay checked for them. "Well separated" is made precise as: all roots distinct and absolute root condition <= 1e3*scale (computed from the true roots at generation '
-         'time), or distinct Gaussian-integer roots for the TLC cases. The path taken inside the real code (which formula, how many Laguerre iterations) is not observed.',
+         'time), or distinct Gaussian-integer roots for the TLC cases. Random palindromic / anti-palindromic polynomials are strict at degree <= 6; degree 7-8 (anti-)palindromic polynomials are exercised only through the recorded D16 instances (five explicit degree-8 polynomials (x^n +- 1)(x +- 1)^2(x -+ 1), keyed by their coefficient list `pid8`, unrefined backward-error clause only; their refined runs and every other polynomial stay strict). The path taken inside the real code (which formula, how many Laguerre iterations) is not observed.',
     design='4 (C10)')
 
 
@@ -58,6 +58,8 @@ def check(ctx):
     cases = ctx.gen('roots')
     ev2 = ctx.exec('roots', cases)
     ctx.validate('Trace_Roots', ev2, cases, 'roots', nontrivial=nt, key=key)
+    if not q:
+        ctx.exhaustive_parts.append('all 100 842 quintics with coefficients in -3..3 (leading coefficient non-zero), both refinement settings')
     # calibration record
     worst_be, worst_m, cls, nsep = {}, 0, {}, 0
     def path(e):
@@ -77,6 +79,6 @@ def check(ctx):
     ctx.notes.append('calibration (this run): worst backward error %s (units of 1e-15, per path; guards: Roots.tla BeGuardE15 / BeGuardE6; known-finding classes excluded); worst matching distance for separated roots %d units of 1e-12*scale (guard 1e-6 = 1e6 units)' % (worst_be, worst_m))
     return ctx.finish(
         rule='cases: (i) every TLC-expanded product over multisets of small Gaussian-integer roots (f64 when the coefficients are real, Cmplx always), (ii) for every degree 1..12 '
-             'and both coefficient types ten seeded root/coefficient patterns, (iii) the input classes of D4/D8, degree 0 and the empty list, (iv) every combination of zero / real / imaginary / general coefficients in every position of degree-1..3 polynomials with magnitudes spread up to 1e6 both ways, (v) sequences of calls and mutations on one object; each with refine = false and true. '
+             'and both coefficient types ten seeded root/coefficient patterns, (iii) the input classes of D4/D8, degree 0 and the empty list, (iv) every combination of zero / real / imaginary / general coefficients in every position of degree-1..3 polynomials with magnitudes spread up to 1e6 both ways, (v) sequences of calls and mutations on one object, (vi) small-integer polynomials (coefficients -3..3): products (a*x^k + b)*q(x) for k = 2..5 (real and Gaussian-integer), palindromic / anti-palindromic polynomials, polynomials in x^2 and x^3 (times a linear factor), degree 4..6; every quintic with coefficients in -3..3 (thorough; a seeded sample in quick) and a sample of the sextics - roots matched against independent reference roots (Aberth iteration + double-double Newton) when these are simple and well conditioned; each with refine = false and true. '
              'One event per call; distinct = distinct (class, degree, settings, measurements).',
         trusted=['harness measurements in double-double (harness/src/suites/roots.rs, dd.rs)', 'TLC', 'Roots.tla / Poly.tla'])
